@@ -95,7 +95,9 @@ def r_budget(ctx):
             if S is None:
                 obs.append(Ob("R-BUDGET", fn, "model", False, "cannot identify the output stream on a success path", rel(f["loc"])))
                 continue
-            in_loop = any(e.kind == "call" and dir_write_fn(e.d["fn"]) and e.loops and fa.root_var(e.d["arg_nodes"][1]) == S for e in p.events)
+            # a spill attempt: the root is written inside the retry loop, or (a rotated loop whose first attempt precedes it) the path chunks the entries
+            in_loop = any(e.kind == "call" and dir_write_fn(e.d["fn"]) and e.loops and fa.root_var(e.d["arg_nodes"][1]) == S for e in p.events) or \
+                any(e.kind == "call" and e.d["fn"].endswith("::chunks") for e in p.events)
             if p.exit == "tail":
                 # delegates to another budget-checked root writer, handing it the remembered absolute start
                 v = unmut(p.value)
@@ -247,15 +249,30 @@ def r_leafptr(ctx):
                 # the vector the pointers go to is the root directory written afterwards in the same attempt; the cursor's buffer is what is returned
                 roots = [e for e in p.events if e.kind == "call" and dir_write_fn(e.d["fn"]) and e.seq > pu.seq and fa.root_var(e.d["arg_nodes"][1]) == S]
                 vec_t = unmut(pu.d["args"][0])
-                ok_root = bool(roots) and any(_same_alloc(t, vec_t) for t in subterms(unmut(roots[0].d["args"][0])))
+                all_roots = [e for e in p.events if e.kind == "call" and dir_write_fn(e.d["fn"]) and fa.root_var(e.d["arg_nodes"][1]) == S]
+                rt_last = unmut(all_roots[-1].d["args"][0]) if all_roots else None
+                if rt_last is not None and not (rt_last[0] == "v" and rt_last in fa.havoc_src) and roots and all_roots[-1] is not roots[0] and \
+                        not any(_same_alloc(t, _alloc_of(vec_t)) for t in subterms(rt_last)):
+                    continue      # a pointer of an earlier, rejected attempt on this path: what is finally written and returned belongs to the last one
+                rt = unmut(roots[0].d["args"][0]) if roots else None
+                ok_root = bool(roots) and any(_same_alloc(t, _alloc_of(vec_t)) for t in subterms(rt))
+                if roots and not ok_root and isinstance(rt, tuple) and rt and rt[0] == "v" and rt in fa.havoc_src:
+                    # the root handed over is a loop-carried variable: one of the values it is given is the directory of these pointers
+                    ok_root = any(_same_alloc(t, _alloc_of(vec_t)) for src in fa.havoc_src[rt] for t in subterms(unmut(src)))
                 obs.append(Ob("R-LEAFPTR", fn, "root directory = the pointers collected in this attempt", ok_root, "root = %s" % (tstr(unmut(roots[0].d["args"][0]))[:100] if roots else "none"), pu.loc()))
                 v = unmut(p.value)
                 ret = v[2][0] if is_call_to(v, lambda s: s == "core::result::Result::Ok") and v[2] else None
                 buf_ok = False
                 if ret is not None:
                     # leaf cursor wraps the returned buffer
-                    cur = unmut(fa_env_init(fa, p, L))
+                    cur = fa_env_init(fa, p, L, pu.seq)
+                    cur = unmut(cur) if cur is not None else None
                     buf_ok = cur is not None and any(_same_alloc(t, ret) for t in subterms(cur))
+                    if not buf_ok and cur is not None and is_call_to(ret, lambda s_: s_.endswith("Cursor::<T>::into_inner")) and ret[2]:
+                        buf_ok = _same_alloc(_alloc_of(unmut(ret[2][0])), _alloc_of(cur))      # an owned cursor taken apart: `cursor.into_inner()`
+                    if not buf_ok and isinstance(ret, tuple) and ret and ret[0] == "v" and ret in fa.havoc_src:
+                        buf_ok = any(is_call_to(unmut(src), lambda s_: s_.endswith("Cursor::<T>::into_inner")) and _same_alloc(_alloc_of(unmut(unmut(src)[2][0])), _alloc_of(cur))
+                                     for src in fa.havoc_src[ret])
                 obs.append(Ob("R-LEAFPTR", fn, "returned leaf bytes = buffer behind the leaf cursor of the accepted attempt", buf_ok, "returns %s" % tstr(ret)[:80], pu.loc()))
         # every chunk becomes a leaf: an iteration of the chunk loop that ends without pushing a pointer is admissible only for an empty chunk
         for p in fa.paths:
@@ -289,21 +306,45 @@ def r_leafptr(ctx):
         chunk_arg_grows = False
         for p in fa.paths:
             for e in p.events:
-                if e.kind == "call" and e.d["fn"].endswith("::chunks") and len(e.d["args"]) == 2 and unmut(e.d["args"][1]) in grows:
-                    chunk_arg_grows = True
+                if e.kind == "call" and e.d["fn"].endswith("::chunks") and len(e.d["args"]) == 2:
+                    a_ = unmut(e.d["args"][1])
+                    if a_ in grows:
+                        chunk_arg_grows = True
+                    # (a rotated loop chunks with the grown value itself: `leaf_size * 2` of the loop-carried size)
+                    if a_[0] == "bin" and a_[2] in grows and a_[3][0] == "c" and ((a_[1] == "*" and a_[3][1] >= 2) or (a_[1] == "+" and a_[3][1] >= 1)):
+                        chunk_arg_grows = True
         obs.append(Ob("R-LEAFPTR", fn, "retry grows the leaf size (termination)", chunk_arg_grows, "chunk size variables multiplied/incremented per retry: %s" % [g[1] for g in grows], rel(f["loc"])))
         if n == 0:
             obs.append(Ob("R-LEAFPTR", fn, "pointer construction", False, "no Entry pushed on a success path", rel(f["loc"])))
     return obs
 
 
+def _alloc_of(t):
+    """the allocation a (possibly mutated / loop-versioned) term denotes"""
+    while isinstance(t, tuple) and t and t[0] == "mut":
+        t = t[1]
+    return t
+
+
 def _same_alloc(a, b):
     return a == b and isinstance(a, tuple) and a[0] == "call" and a[3] is not None
 
 
-def fa_env_init(fa, p, var):
-    """the term a variable was bound to by its `let` on this path"""
+def fa_env_init(fa, p, var, upto=None):
+    """the term a variable was bound to by its `let` on this path (the latest binding before event `upto`, if given: a helper evaluated in place
+    more than once binds its locals once per evaluation)"""
+    found = None
     for e in p.events:
+        if upto is not None and e.seq > upto:
+            break
         if e.kind == "let" and e.d["pat"]["k"] == "Bind" and fa.canon(e.d["pat"]["var"]) == var:
-            return e.d["value"]
-    return None
+            if upto is None:
+                return e.d["value"]
+            found = e.d["value"]
+    return found
+
+
+def r_leafptr_first_id(ctx):
+    """the part of R-LEAFPTR a range-filtered open of a library-written archive relies on: a leaf pointer carries its leaf's FIRST tile id
+    (the walker skips a leaf whose pointer id lies beyond the range end)"""
+    return [o for o in r_leafptr(ctx) if o.fn.startswith("<") or "pointer.tile_id" in o.site or "pointer construction" in o.site]
